@@ -4,12 +4,12 @@ go 1.26
 
 require (
 	github.com/anishathalye/porcupine v1.3.0
+	github.com/oasisprotocol/curve25519-voi v0.0.0-20220328075252-7dd334e3daae
 	github.com/tonkeeper/tongo v0.0.0
 	golang.org/x/crypto v0.17.0
 )
 
 require (
-	github.com/oasisprotocol/curve25519-voi v0.0.0-20220328075252-7dd334e3daae // indirect
 	github.com/snksoft/crc v1.1.0 // indirect
 	golang.org/x/exp v0.0.0-20230116083435-1de6713980de // indirect
 	golang.org/x/sys v0.15.0 // indirect
